@@ -297,7 +297,7 @@ func runC14(w *World, c *Check) {
 	keytabFilterRule(w, c, "C14.filter")
 
 	src := "MIT keytab file format"
-	ver := `.*\.version|v`
+	ver := `(?i)(.*\.)?(v|ver|version)`
 	type tr struct {
 		fk     string
 		writer bool
